@@ -2,6 +2,7 @@ import TeakraModel.Generated.LockTable
 import Proofs.C19Lock
 import Proofs.C19Pinned
 import Proofs.C19Conc
+import Proofs.C19Wake
 /-!
 # C19 — the host mailbox/semaphore API is race-free and loses nothing against a running DSP
 
